@@ -405,6 +405,8 @@ class QueryAssignedColourResponse(command.EnumResponse):
     def value(self):
         if self.raw_value is None:
             return None
+        if self.raw_value.error:
+            return super().value
         _value = self.raw_value.as_integer
         if 6 < _value < 255:
             return "(error)"
